@@ -335,6 +335,16 @@ func (tr *FnCtx) frameObligations() {
 				continue
 			}
 			cond := isOldAddr("x", a0)
+			if tr.interfered {
+				// other goroutines ran in between: the frame of THIS function is checked on what they cannot touch
+				pub := tr.cur(r.st, compPub)
+				switch {
+				case strings.HasPrefix(k, "M."):
+					cond = and(cond, "(or (>= x 0) (not (select "+pub+" (elemB x))))")
+				case strings.HasPrefix(k, "F."), strings.HasPrefix(k, "MD."), strings.HasPrefix(k, "MV."):
+					cond = and(cond, "(not (select "+pub+" x))")
+				}
+			}
 			if me != nil {
 				env := tr.newEnv(tr.entry, tr.entry, tr.params)
 				for _, oe := range me.objs {
@@ -359,7 +369,7 @@ func (tr *FnCtx) frameObligations() {
 	}
 	// a havoc-all (call without modifies clause) makes every frame unprovable
 	for _, r := range tr.rets {
-		if r.st.Gen != tr.entry.Gen {
+		if r.st.Unframed {
 			tr.obls = append(tr.obls, &Obligation{Name: tr.Short + "/frame[*]", Fn: tr.Short, Kind: "frame", Prefix: len(tr.cmds), Goal: not(r.guard), Src: "a call without modifies clause may change everything", Ctx: tr})
 			break
 		}
@@ -1213,6 +1223,15 @@ func (tr *FnCtx) applyContract(st *State, f *ssa.Function, spec *FuncSpec, metho
 	if mode == "go" {
 		return &Val{T: resT}
 	}
+	// interference around a callee that takes the monitor lock itself (lockmode none: the caller does not hold it,
+	// proved as call-pre[.lockmode]): the callee's contract describes its critical section as one atomic step, so
+	// other critical sections may run between the call and the callee's acquisition, and again after its release
+	interfere := f != nil && tr.lockSweep && tr.lockModeOf(spec, f) == "none" && pkg.Path() == tr.Pkg.Path() && tr.hasRelies()
+	if interfere {
+		tr.interference(st, vars)
+		pre = st.clone()
+		env = &Env{tr: tr, vars: vars, st: pre, old: pre, pkg: pkg, allocOld: tr.cur(pre, compAlloc)}
+	}
 	// havoc
 	if !spec.HasMod {
 		tr.havocAll(st)
@@ -1291,6 +1310,11 @@ func (tr *FnCtx) applyContract(st *State, f *ssa.Function, spec *FuncSpec, metho
 			Src: fmt.Sprintf("the assumed contract of %s (call #%d) does not make a reachable call site unreachable", calleeName, k), Ctx: tr})
 	}
 	tr.runAts(st, fmt.Sprintf("after %s#%d", calleeName, k), post.vars)
+	if interfere {
+		held := tr.cur(st, compHeld)
+		tr.interference(st, vars)
+		st.Comps[compHeld.Name] = held
+	}
 	if f != nil && tr.lockSweep {
 		// balanced lock protocol of the callee (proved for it as lockproto[balanced])
 		if _, listed := tr.modTable(spec, pkg)["$held"]; !listed || !spec.HasMod {
